@@ -1,6 +1,7 @@
 package workers
 
 import (
+	"bytes"
 	"fmt"
 	"os"
 	"math/rand"
@@ -333,6 +334,82 @@ func TestC01(t *testing.T) {
 			continue
 		}
 		r.Progress(id, "")
+		if vf.Hash("c01-family", id)%20 == 0 {
+			c01IdleProducer(r, t, id, r.Rand(id))
+			continue
+		}
 		c01Scenario(r, t, id, r.Rand(id), g, "C01")
 	}
+}
+
+// c01IdleProducer: one response is produced by a stream writer that goes quiet after its first chunk (server-sent events,
+// a slow backend). Requests multiplexed on the same connection are still served while it is quiet: "in whatever order
+// handlers finish" includes a handler whose body is not finished for a long time.
+func c01IdleProducer(r *vf.Run, t *testing.T, id string, rng *rand.Rand) {
+	nOther := 1 + rng.Intn(3)
+	total := 2000 + rng.Intn(30000)
+	chunk := 100 + rng.Intn(1500)
+	replay := map[string]any{"family": "idle-producer", "other_requests": nOther, "streamed_body": total, "first_chunk": chunk}
+	failed := false
+	// input-only trigger of known finding F-C01-6: a response body whose producer goes quiet while other requests arrive
+	triggers := []string{"resp.streamWriterIdleWhileOtherRequestsArrive"}
+	fail := func(rule, detail string) {
+		if !failed {
+			r.Fail("C01."+rule, id, detail, triggers, replay)
+		}
+		failed = true
+	}
+	res := rt.RunBubble(t, id, 60*time.Second, func() {
+		e := rt.NewServerEnv(id, rt.ServerOpts{})
+		e.P.Write(rt.WindowUpdate(0, 1<<24))
+		gate := e.H.NewGate()
+		body := make([]byte, total)
+		rng.Read(body)
+		slowTag := id + ".slow"
+		e.H.SetPlan(slowTag, &rt.RespPlan{Status: 200, Body: body, Stream: 3, ReadChunk: chunk, WriterGate: gate})
+		e.P.Write(simpleGet(e.P, 1, slowTag))
+		rt.Wait()
+		var firstSeen int
+		for _, f := range rt.FramesFor(e.P.Frames(), 1) {
+			if f.Type == wire.TData {
+				firstSeen += int(f.Len)
+			}
+		}
+		for i := 0; i < nOther; i++ {
+			sid := uint32(3 + 2*i)
+			tag := fmt.Sprintf("%s.%d", id, sid)
+			e.H.SetPlan(tag, &rt.RespPlan{Status: 200, Body: []byte("answer for " + tag)})
+			e.P.Write(simpleGet(e.P, sid, tag))
+			rt.Wait()
+			done := false
+			var got []byte
+			for _, f := range rt.FramesFor(e.P.Frames(), sid) {
+				if f.Type == wire.TData {
+					got = append(got, f.Data...)
+				}
+				done = done || f.EndStream
+			}
+			if !done || string(got) != "answer for "+tag {
+				fail("response-blocked-behind-an-idle-body", fmt.Sprintf("request %s (stream %d) was sent while the response on stream 1 is waiting for its producer (a stream writer that has delivered %d of %d bytes and is quiet); the server is quiescent and stream %d has received %d body bytes, END_STREAM %v", tag, sid, firstSeen, total, sid, len(got), done))
+				break
+			}
+		}
+		rt.Open(gate)
+		rt.Wait()
+		var slow []byte
+		end := false
+		for _, f := range rt.FramesFor(e.P.Frames(), 1) {
+			if f.Type == wire.TData {
+				slow = append(slow, f.Data...)
+			}
+			end = end || f.EndStream
+		}
+		if !failed && (!end || !bytes.Equal(slow, body)) {
+			fail("response-mismatch", fmt.Sprintf("the slow response on stream 1: %d of %d bytes arrived, END_STREAM %v", len(slow), total, end))
+		}
+		r.Inc("idle_producer_cases", 1)
+		e.Finish()
+	})
+	c01Outcome(r, id, res, triggers, replay, "C01")
+	r.Eval(vf.Hash("idle-producer", nOther, total/5000), true)
 }
